@@ -435,4 +435,53 @@ example : CodeOrder cex_q := by decide
 example : verdict cex_q cex_c 7 = [] ∧ verdict cex_q cex_c 14 = [] ∧ verdict cex_q cex_c 15 = [] := by decide
 example : verdict cex_q { txs := 1, spends := 0, outs := 0 } 10 = [] := by decide
 
+/-! ## Part 4: the consensus status reflects the same prefix as the application after every restart -/
+
+theorem finalize_order_fact :
+    Gen.C13Facts.finalizeCommitCalls = ["CommitBlock", "WriteSync", "ApplyBlock"] ∧
+    Gen.C13Facts.applyBlockSteps = ["updateStatus", "SaveStatus"] ∧
+    Gen.C13Facts.startupRebuild =
+      ["if status.LastBlockHeight+1 == appHeight", "LoadBlockMeta", "LoadBlock", "GetValidators", "ApplyBlock"] := by decide
+
+/-- at rest the three heights agree -/
+def Synced (s : Heights) : Prop := s.status = s.app ∧ s.walEnd ≤ s.app ∧ s.app ≤ s.walEnd + 1
+
+/-- whatever step of finalizeCommit a crash cuts, the restarted node's status is at the application's height; the WAL marker
+may be one behind (crash between the application commit and the marker: catchupReplay then finds no marker for the
+previous height and the node proceeds from the rebuilt status) -/
+theorem status_catches_up (s : Heights) (k : Nat) (h : s.status = s.app) :
+    (restartNode (commitCut s k)).status = (restartNode (commitCut s k)).app := by
+  unfold restartNode commitCut
+  by_cases h1 : 1 ≤ k <;> by_cases h2 : 2 ≤ k <;> by_cases h3 : 3 ≤ k <;> simp [h1, h2, h3, h] <;> omega
+
+/-- along every history of commits and crash-restarts from genesis the status never lags after a restart, the application
+never runs more than one block ahead of a durable status, and nothing ever goes backwards -/
+theorem node_history_synced (ops : List NodeOp) :
+    let s := ops.foldl nodeStep ⟨0, 0, 0⟩
+    s.status = s.app := by
+  have key : ∀ (ops : List NodeOp) (s : Heights), s.status = s.app → (ops.foldl nodeStep s).status = (ops.foldl nodeStep s).app := by
+    intro ops
+    induction ops with
+    | nil => intro s h; exact h
+    | cons op rest ih =>
+      intro s h
+      simp only [List.foldl_cons]
+      apply ih
+      cases op with
+      | commit => simp [nodeStep, commitCut, h]
+      | crash k => exact status_catches_up s k h
+  exact key ops ⟨0, 0, 0⟩ rfl
+
+theorem node_history_monotone (s : Heights) (op : NodeOp) (h : s.status = s.app) :
+    s.app ≤ (nodeStep s op).app ∧ s.status ≤ (nodeStep s op).status ∧ (nodeStep s op).app ≤ s.app + 1 := by
+  cases op with
+  | commit => simp [nodeStep, commitCut]
+  | crash k =>
+    simp only [nodeStep, restartNode, commitCut]
+    by_cases h1 : 1 ≤ k <;> by_cases h3 : 3 ≤ k <;> simp [h1, h3, h] <;> (try split) <;> simp_all <;> omega
+
+example : restartNode (commitCut ⟨7, 7, 7⟩ 1) = ⟨8, 7, 8⟩ := by decide
+example : restartNode (commitCut ⟨7, 7, 7⟩ 2) = ⟨8, 8, 8⟩ := by decide
+example : restartNode (commitCut ⟨7, 7, 7⟩ 0) = ⟨7, 7, 7⟩ := by decide
+
 end Props.C13
